@@ -7,7 +7,7 @@ class Balance(V.Family):
     props = ("C01", "C02", "C09")
     driver_pkg = "balance"
     monitor = ("BalanceTrace.tla", "BalanceTrace.cfg")
-    step_keys = ("act", "S", "a", "b", "amt", "x")
+    step_keys = ("act", "S", "a", "b", "amt", "x", "d")
     assume = [
         "neo-go v0.107.0 compiler/VM/ledger/neotest are faithful to the production platform (transaction atomicity on FAULT, witness checks)",
         "the harness maps model values injectively to real script hashes/amounts; amounts are scaled by U in {1,1e12,2^64,2^200} and must divide exactly",
